@@ -1,0 +1,40 @@
+//go:build verif
+
+// Contracts for package limit/functions, read by /verif's gcv (comment-only file).
+package functions
+
+// Facts about the pre-computed tables. They are established by evaluating the real, initialised
+// tables (every entry) and assumed wherever a table is read.
+//@ tablefact[C04,C06,C07,C08] sqrtRootLookup size: n >= 1000
+//@ tablefact[C04,C06,C07,C08] log10RootLookup size: n >= 1000
+//@ tablefact[C04,C06,C07,C08] sqrtRootLookup bounds: 1 <= v && v <= max(1, i) && v*v <= max(1, i) && (i >= 1 ==> (v+1)*(v+1) > i)
+//@ tablefact[C04,C06,C07,C08] sqrtRootLookup monotone: i >= 1 ==> v <= 31 || i >= 1024
+//@ tablefact[C04,C06,C07,C08] log10RootLookup bounds: 1 <= v && v <= 3 && v <= max(1, i)
+
+//@ func SqrtRootFunction$1
+//@   requires nonneg: estimatedLimit >= 0 && 0 <= baseline && baseline <= 1<<31
+//@   ensures[C04,C07] lower: result >= baseline && result >= 1
+//@   ensures[C04] upper: result <= max(baseline, 1, estimatedLimit)
+//@   safety[C04]
+//@   assigns nothing
+
+//@ func Log10RootFunction$1
+//@   requires nonneg: estimatedLimit >= 0 && 0 <= baseline && baseline <= 1<<31
+//@   ensures[C04,C07,C08] lower: result >= baseline + 1
+//@   ensures[C04] upper: result <= baseline + max(1, estimatedLimit)
+//@   safety[C04]
+//@   assigns nothing
+
+//@ func Log10RootFloatFunction$1
+//@   requires finite: isFinite(estimatedLimit) && 0.0 <= estimatedLimit && estimatedLimit <= 4611686018427387904.0 && isFinite(baseline)
+//@   ensures[C04,C06] lower: isFinite(result) && result >= baseline + 1.0
+//@   ensures[C04] upper: result <= baseline + max(1.0, estimatedLimit)
+//@   safety[C04]
+//@   assigns nothing
+
+//@ func FixedQueueSizeFunc$1
+//@   ensures[C04,C07] value: result == queueSize
+//@   assigns nothing
+
+//@ func max
+//@   inline
